@@ -22,7 +22,28 @@
    writes, so a connection IS established and then dies under the first request (CANCELLED).  Like
    the racy drop this is a call in flight on a dying connection, outside the quantifier; it is
    excluded by [plain h] / [plain_net net0] where a theorem speaks about UNAVAILABLE, and described
-   exactly by [c14_handshake_failure_outcome]. *)
+   exactly by [c14_handshake_failure_outcome].
+
+   WHICH TRANSPORT EACH CLAUSE IS TIED ON (harness h_reconnect, see checks/C14.json).
+   * tokio duplex pipes + scripted connector (all kinds except tcp.loopback): everything - the
+     Reconnect / Buffer-worker state machine, attempt attribution, queued calls, connector protocol,
+     error shapes, eager/lazy construction, peer drops, the UpDead and UpGarbage outcomes.
+   * real TCP on 127.0.0.1 through Endpoint::connect()/connect_lazy() (kind tcp.loopback, codes
+     only): refusal (nothing listening) is UNAVAILABLE for calls and for an eager connect, strictly;
+     recovery without rebuilding the channel after the server is shut down and restarted on the same
+     port; a healthy peer answers.  Over TCP hyper's write-only client handshake cannot fail
+     synchronously, so a peer that ACCEPTS AND CLOSES is an established connection that dies with
+     the request in flight: it is [UpGarbage] there (eager connect Ok, calls CANCELLED), NOT [UpDead].
+     [UpDead] (handshake fails, UNAVAILABLE since fix 4d59edca) is realisable on duplex only (a
+     synchronous write error) - the clauses about it are duplex-specific.  accept-and-close and
+     accept-and-garbage belong to the in-flight-drop class, outside the quantifier (calls at quiescent
+     points of established connections): CANCELLED or UNAVAILABLE accepted (a garbage peer over TCP
+     also yields UNKNOWN "h2 protocol error", what C04's HTTP/2 table makes of FRAME_SIZE_ERROR).
+   OBSERVATION, not part of the property: a connector whose poll_ready returns Err
+   ([run_breaking], kind observe.connector_not_ready) - by tower's contract such a service is dead:
+   the request that needed it gets the ConnectError (UNAVAILABLE), requests already queued get the
+   same error, every later call is refused ("Service was not ready", UNKNOWN), for good
+   ([c14_obs_worker_failure_is_permanent]).  All property theorems are about a sound connector. *)
 From Coq Require Import List NArith Sorted.
 From Verif Require Import Lib.Obs Gen.StatusTables Model.Reconnect Proofs.Reconnect.
 Import ListNotations.
@@ -217,6 +238,38 @@ Theorem c14_attempts_counted :
       <= (if is_lazy then 0 else 1) + N.of_nat (count_calls h).
 Proof. exact attempts_counted. Qed.
 
+(* ---------------------------------------------------------------- observation: broken connector *)
+(* a request that needs the connector while its poll_ready errs gets that error (a ConnectError,
+   UNAVAILABLE) and the Buffer worker is failed; the connector is not invoked *)
+Theorem c14_obs_broken_connector_fails_worker :
+  forall cpr sreq p fuel rc w r,
+    rc_state rc = Idle -> rc_error rc = None ->
+    w_break w = Some (O, r) -> w_pr_left w = p -> (p + 1 <= fuel)%nat ->
+    exists w',
+      serve cpr sreq fuel (mkChan rc None) w =
+        (mkChan rc (Some (mkErr 0 r NotReady)), w', ServiceFailed (mkErr 0 r NotReady)) /\
+      w_attempts w' = w_attempts w.
+Proof. exact broken_connector_fails_worker. Qed.
+
+(* and it stays failed whatever happens afterwards: every later call of every history is refused *)
+Theorem c14_obs_worker_failure_is_permanent :
+  forall cpr sreq h fuel ch w e,
+    ch_failed ch = Some e ->
+    Forall (fun c => rec_outcome c = WorkerClosed) (fst (fst (run_steps cpr sreq fuel h ch w))) /\
+    ch_failed (snd (fst (run_steps cpr sreq fuel h ch w))) = Some e /\
+    length (fst (fst (run_steps cpr sreq fuel h ch w))) = count_calls h.
+Proof. exact worker_failure_is_permanent. Qed.
+
+Theorem c14_obs_service_failed_codes : forall e,
+  outcome_code (ServiceFailed e) = Some Code_Unavailable /\ outcome_code WorkerClosed = Some Code_Unknown.
+Proof. exact service_failed_codes. Qed.
+
+Example c14_obs_broken_connector_example :
+  map rec_outcome (r_calls (run_breaking true 0 1 1 9 Up [Call; Env ConnectionDropped; Calls 2; Env ConnectSucceeds; Call])) =
+    [Response; ServiceFailed (mkErr 0 9 NotReady); ServiceFailed (mkErr 0 9 NotReady); WorkerClosed] /\
+  r_attempts (run_breaking true 0 1 1 9 Up [Call; Env ConnectionDropped; Calls 2; Env ConnectSucceeds; Call]) = 1.
+Proof. split; reflexivity. Qed.
+
 (* ---------------------------------------------------------------- non-vacuity *)
 (* the assumed contract is satisfiable: by the instance the correspondence run evaluates against
    the real stack, with the fuel [run] uses *)
@@ -264,7 +317,7 @@ Example c14_excluded_outcomes_are_reachable :
          (mkChan (new_reconnect true) None) (init_world Up 5 0)) = OutOfFuel /\
   (* the connector refuses a call that was not preceded by a Ready poll_ready, accepts it after *)
   make_service (init_world Up 0 0) = None /\
-  fst (mk_poll_ready (init_world Up 0 1)) = mkWorld Up 0 0 false 0 1 /\
+  fst (mk_poll_ready (init_world Up 0 1)) = mkWorld Up 0 0 false 0 1 None /\
   make_service (fst (mk_poll_ready (init_world Up 0 0))) <> None.
 Proof. repeat split; try reflexivity. discriminate. Qed.
 
